@@ -852,9 +852,9 @@ def from_shorthand(shorthand_string, slash=None):
     shorthand_string = shorthand_string.replace("ma", "M")
 
     # Get the note name
-    if not notes.is_valid_note(shorthand_string[0]):
+    if not shorthand_string or not notes.is_valid_note(shorthand_string[0]):
         raise NoteFormatError(
-            "Unrecognised note '%s' in chord '%s'" % (shorthand_string[0], shorthand_string)
+            "Unrecognised note '%s' in chord '%s'" % (shorthand_string[:1], shorthand_string)
         )
     name = shorthand_string[0]
 
@@ -897,7 +897,7 @@ def from_shorthand(shorthand_string, slash=None):
         if slash != None:
             # Add slashed chords
             if isinstance(slash, six.string_types):
-                if notes.is_valid_note(slash):
+                if slash and notes.is_valid_note(slash):
                     res = [slash] + res
                 else:
                     raise NoteFormatError(
